@@ -20,7 +20,7 @@ SPEC = {
         ("non-emitting search, link to the next observation(segment objects per call)", 'ne_end', '^fresh:'),
         ("_build_matching_path(back-tracking follows the stored predecessor links to a most probable predecessor: loop invariants)", 'backtrack', r'(^chain:|::inv-(init|preserved)::)')],
     'bounded': [
-        ('rescore-best-path', suites.case_C02, 1500, 25000, RULE + '; ' + 'non-trivial = the path contains a non-emitting state or the history has more than one operation; histories of <= 4 operations (match, extend, widen)', '')],
+        ('rescore-best-path', suites.case_C02, 1500, 200000, RULE + '; ' + 'non-trivial = the path contains a non-emitting state or the history has more than one operation; histories of <= 4 operations (match, extend, widen)', '')],
 }
 
 
